@@ -333,7 +333,11 @@ impl TxGen<'_, '_> {
             let k = self.g.below(3) + 1;
             for i in 0..k {
                 let key = self.strings(&GOOD_KEYS, &BAD_KEYS, &EDGE_KEYS);
-                let val = if self.g.chance(1, 5) { String::new() } else { format!("v{}.{}", idx, i) };
+                let val = match self.g.weighted(&[2, 1, 7]) {
+                    0 => String::new(),
+                    1 => self.g.pick(&[" ", "\t", "\u{2003}", " padded ", "\n", "_v", "é "]).to_string(),
+                    _ => format!("v{}.{}", idx, i),
+                };
                 n.attrs.push((key, val));
             }
         }
@@ -345,7 +349,11 @@ impl TxGen<'_, '_> {
                 let attrs = (0..na)
                     .map(|j| {
                         let key = self.strings(&GOOD_KEYS, &BAD_KEYS, &EDGE_KEYS);
-                        (key, if self.g.chance(1, 5) { String::new() } else { format!("e{}.{}.{}", idx, i, j) })
+                        (key, match self.g.weighted(&[2, 1, 7]) {
+                            0 => String::new(),
+                            1 => self.g.pick(&[" ", "\t", "\u{2003}", " padded ", "\n", "_v"]).to_string(),
+                            _ => format!("e{}.{}.{}", idx, i, j),
+                        })
                     })
                     .collect();
                 n.events.push((ty, attrs));
